@@ -15,7 +15,11 @@
     produces, but `ReprOK` carries them for every value;
   * `C09_nested_text_to_flat_bytes_partial` — the nested text converter theorem with the token hypotheses (`ReprCore`) asked
     of the values that are NOT character values only, nothing about character values;
-    `C09_flat_text_to_flat_bytes` — the same for the flat text, plus `FlagTokOK` of the character values.
+    `C09_flat_text_to_flat_at` — the flat text converter theorem with the token hypotheses stated per (label, value) pair
+    (`TokAt`: the tuple token is constrained only where the renderer prints a tuple), and
+    `C09_flat_text_to_flat_bytes_values` — with character values rendered by `reprBytes` nothing is assumed of their tokens;
+    the only condition on a character value is that it does not sit at a flag-table element (decidable; flag-table elements
+    are numeric).  (`C09_flat_text_to_flat_bytes`: the earlier form with `FlagTokOK` as a hypothesis.)
 -/
 import BufrModel.Props.C09Text
 import BufrModel.Props.C09Cli
@@ -234,6 +238,95 @@ theorem C09_nested_text_to_flat_bytes_partial (env : TextEnv) (ev : Line → Opt
     nestedTextToFlat ev (lines ++ hdr :: rest) = .ok (hdr :: rest, subs.map fun s => s.out.vals.map PyLit.val) :=
   C09_nested_text_to_flat_partial env ev t subs lines hdr rest hhdr hok
     (fun s hs v hv => C09_repr_core_of_bytes_model env ev hrepr hev v (hother s hs v hv)) hl
+
+/-! ### flat text: the tuple token is read only at a flag-table element -/
+namespace C09TB
+
+/-- what the flat text needs of the token printed for value `v` under label `d`: the plain token hypotheses, and those of
+    the tuple token only where the renderer prints a tuple (`v` not missing and `d` a flag-table element) -/
+def TokAt (env : TextEnv) (ev : Line → Option PyLit) (d : DDesc) (v : Val) : Prop :=
+  ReprCore env ev v ∧ ((v != .missing && isFlagLabel env d) = true → FlagTokOK env ev v)
+
+theorem flatTok_eval_at (env : TextEnv) (ev : Line → Option PyLit) (d : DDesc) (v : Val) (h : TokAt env ev d v) :
+    ∃ x, ev (pyStrip (flatTok env d v)) = some x ∧ x.untuple = .val v := by
+  unfold flatTok
+  split
+  · rename_i hc
+    obtain ⟨he, hedge⟩ := h.2 hc
+    exact ⟨.tuple v, by rw [pyStrip_edges _ (hedge _), he], rfl⟩
+  · exact ⟨.val v, by rw [pyStrip_edges _ h.1.edges, h.1.eval_repr], rfl⟩
+
+theorem ftLoop_lines_at (env : TextEnv) (ev : Line → Option PyLit) (links : List (Nat × Nat)) :
+    ∀ (ds : List DDesc) (vs : List Val) (idx : Nat) (pre : List (List PyLit)) (cur : List PyLit) (rest : List Line),
+      (∀ p ∈ ds.zip vs, TokAt env ev p.1 p.2) →
+      ftLoop ev PyLit.untuple (flatLinesFrom env links idx ds vs ++ rest) (pre ++ [cur]) =
+        ftLoop ev PyLit.untuple rest (pre ++ [cur ++ (vs.take ds.length).map PyLit.val])
+  | [], vs, idx, pre, cur, rest, _ => by
+    cases vs <;> simp [flatLinesFrom]
+  | d :: ds, [], idx, pre, cur, rest, _ => by simp [flatLinesFrom]
+  | d :: ds, v :: vs, idx, pre, cur, rest, h => by
+    obtain ⟨hs, hm⟩ := flatLine_not_header env links idx d v
+    obtain ⟨x, hx, hu⟩ := flatTok_eval_at env ev d v (h (d, v) (by simp))
+    rw [flatLinesFrom, List.cons_append, ftLoop]
+    simp only [hs, hm, Bool.false_eq_true, if_false, flatLine_drop, hx, modifyLast_concat, hu]
+    rw [ftLoop_lines_at env ev links ds vs (idx + 1) pre _ rest (fun w hw => h w (by simp [hw]))]
+    simp
+
+theorem ftLoop_subsets_at (env : TextEnv) (ev : Line → Option PyLit) (n : Nat) (hdr : Line) (rest : List Line)
+    (hhdr : startsWith sectionMark hdr = true) :
+    ∀ (outs : List SubsetOut) (i : Nat) (pre : List (List PyLit)),
+      (∀ o ∈ outs, ∀ p ∈ o.descs.zip o.vals, TokAt env ev p.1 p.2) →
+      ftLoop ev PyLit.untuple (flatSubsetsFrom env n i outs ++ hdr :: rest) pre =
+        .ok (hdr :: rest, pre ++ outs.map flatBack)
+  | [], i, pre, _ => by
+    simp [flatSubsetsFrom, ftLoop, hhdr]
+  | o :: os, i, pre, h => by
+    obtain ⟨h1, h2⟩ := subsetHeader_marks (i + 1) n
+    rw [flatSubsetsFrom, List.cons_append, List.cons_append, ftLoop]
+    simp only [h1, h2, Bool.false_eq_true, if_false, if_true, List.append_assoc]
+    rw [ftLoop_lines_at env ev o.links o.descs o.vals 0 pre [] _ (h o (by simp))]
+    rw [ftLoop_subsets_at env ev n hdr rest hhdr os (i + 1) _ (fun o' ho' => h o' (by simp [ho']))]
+    simp [flatBack]
+
+end C09TB
+
+/-- flat text -> flat with the token hypotheses stated per (label, value) pair: the tuple token is constrained only where a
+    tuple is printed.  (`C09_flat_text_to_flat` is the special case `ReprOK` for every value.) -/
+theorem C09_flat_text_to_flat_at (env : TextEnv) (ev : Line → Option PyLit) (outs : List SubsetOut)
+    (hdr : Line) (rest : List Line) (hhdr : startsWith sectionMark hdr = true)
+    (htok : ∀ o ∈ outs, ∀ p ∈ o.descs.zip o.vals, TokAt env ev p.1 p.2) :
+    flatTextToFlat ev PyLit.untuple (flatTextLines env outs ++ hdr :: rest) =
+      .ok (hdr :: rest, outs.map fun o => (o.vals.take o.descs.length).map PyLit.val) := by
+  unfold flatTextToFlat flatTextLines
+  rw [ftLoop_subsets_at env ev outs.length hdr rest hhdr outs 0 [] htok]
+  rfl
+
+/-- **flat text -> flat with character values rendered by `reprBytes`, nothing assumed of their tokens**: the token
+    hypotheses are asked of the pairs whose value is NOT a character value; of a character value only that it does not sit at
+    a flag-table element (decidable on the flat lists; no decoder produces it: flag-table elements are numeric) -/
+theorem C09_flat_text_to_flat_bytes_values (env : TextEnv) (ev : Line → Option PyLit) (outs : List SubsetOut)
+    (hdr : Line) (rest : List Line) (hhdr : startsWith sectionMark hdr = true)
+    (hrepr : ∀ b, env.reprV (.bytes b) = reprBytes b)
+    (hev : ∀ tok b, evalBytesLiteral tok = some b → ev tok = some (.val (.bytes b)))
+    (hother : ∀ o ∈ outs, ∀ p ∈ o.descs.zip o.vals, (∀ b, p.2 ≠ .bytes b) → TokAt env ev p.1 p.2)
+    (hnoflag : ∀ o ∈ outs, ∀ p ∈ o.descs.zip o.vals, ∀ b, p.2 = .bytes b → isFlagLabel env p.1 = false)
+    (hlen : ∀ o ∈ outs, o.descs.length = o.vals.length) :
+    flatTextToFlat ev PyLit.untuple (flatTextLines env outs ++ hdr :: rest) =
+      .ok (hdr :: rest, outs.map fun o => o.vals.map PyLit.val) := by
+  rw [C09_flat_text_to_flat_at env ev outs hdr rest hhdr]
+  · congr 2
+    apply List.map_congr_left
+    intro o ho
+    rw [hlen o ho, List.take_length]
+  · intro o ho p hp
+    by_cases hb : ∃ b, p.2 = .bytes b
+    · obtain ⟨b, hb⟩ := hb
+      refine ⟨?_, ?_⟩
+      · rw [hb]; exact C09_repr_bytes_core env ev hrepr hev b
+      · intro hc
+        rw [hnoflag o ho p hp b hb] at hc
+        simp at hc
+    · exact hother o ho p hp (fun b h => hb ⟨b, h⟩)
 
 -- the case the hypothesis was feared for: b" b'x" - its repr contains ` b'`, not ` b"`
 example : reprBytes [0x20, 0x62, 0x27, 0x78] = ['b', '"', ' ', 'b', '\'', 'x', '"'] := by decide
